@@ -573,12 +573,20 @@ func registerDecimal(p *Program) {
 			e2 := B.App("redexp_pos_f", smt.SInt, a.Mag, a.Exp)
 			x.setBounds(e2, 1, hi, "reduced exponent")
 			x.AssumeLocal(B.And(B.Ge(e2, a.Exp), B.IsInt(B.Mul(a.Mag, B.RatC(big.NewRat(1, 10))))), "reduce: positive exponent")
+			if x.Cfg.Bound("reduce_exact", 0) == 1 {
+				// exact mode (decimal kernels): the reduced coefficient mag/10^e' is an integer
+				// that is not divisible by ten
+				x.AssumeLocal(B.And(B.IsInt(B.Mul(a.Mag, x.p10(B.Neg(e2)))), B.Not(B.IsInt(B.Mul(a.Mag, x.p10(B.Sub(B.Neg(e2), B.Int(1))))))), "reduce: exact positive exponent")
+			}
 			x.storeDec(c.Args[0], B.Int(0), a.Neg, e2, a.Mag)
 			return TupleV{c.Args[0], IntV{B.Sub(e2, a.Exp)}}
 		}
 		e2 := B.App("redexp_neg_f", smt.SInt, a.Mag, a.Exp)
 		x.setBounds(e2, lo, -1, "reduced exponent")
 		x.AssumeLocal(B.Ge(e2, a.Exp), "reduce: negative exponent")
+		if x.Cfg.Bound("reduce_exact", 0) == 1 {
+			x.AssumeLocal(B.And(B.IsInt(B.Mul(a.Mag, x.p10(B.Neg(e2)))), B.Not(B.IsInt(B.Mul(a.Mag, x.p10(B.Sub(B.Neg(e2), B.Int(1))))))), "reduce: exact negative exponent")
+		}
 		x.storeDec(c.Args[0], B.Int(0), a.Neg, e2, a.Mag)
 		return TupleV{c.Args[0], IntV{B.Sub(e2, a.Exp)}}
 	}
